@@ -425,6 +425,11 @@ namespace occa {
                          value.bytes);
           break;
         }
+        case occa::c::typeType::bool_: {
+          return occa::kernelArg(
+            occa::kernelArgData(occa::primitive((bool) value.value.int8_))
+          );
+        }
         case occa::c::typeType::int8_: {
           return occa::kernelArg(value.value.int8_);
         }
